@@ -418,9 +418,32 @@ def _strip_doc(node):
     return node
 
 
+_REPRO = ["lib/debian/_deb822_repro/%s.py" % n for n in ("__init__", "_util", "formatter", "parsing", "tokens", "types")]
+# whole files every property depends on (besides the functions its harness names): any change there switches the run
+# to the deep budget — new methods, class-level state and helpers do not escape the guard by not being listed
+PROP_FILES = {
+    "C01": _REPRO + ["lib/debian/_util.py"], "C05": _REPRO + ["lib/debian/_util.py"],
+    "C10": _REPRO + ["lib/debian/_util.py"], "C11": _REPRO + ["lib/debian/_util.py"],
+    "C02": ["lib/debian/deb822.py", "lib/debian/_util.py"], "C08": ["lib/debian/deb822.py", "lib/debian/_util.py"],
+    "C09": ["lib/debian/deb822.py", "lib/debian/_util.py"], "C12": ["lib/debian/deb822.py", "lib/debian/_util.py"],
+    "C13": ["lib/debian/deb822.py", "lib/debian/_util.py"],
+    "C03": ["lib/debian/debian_support.py"], "C14": ["lib/debian/debian_support.py"],
+    "C18": ["lib/debian/debian_support.py"], "C19": ["lib/debian/debian_support.py"],
+    "C04": ["lib/debian/changelog.py", "lib/debian/debian_support.py"],
+    "C15": ["lib/debian/changelog.py", "lib/debian/debian_support.py"],
+    "C06": ["lib/debian/arfile.py"],
+    "C07": ["lib/debian/arfile.py", "lib/debian/debfile.py", "lib/debian/deb822.py", "lib/debian/_util.py"],
+    "C16": ["lib/debian/copyright.py", "lib/debian/deb822.py", "lib/debian/_util.py"],
+    "C17": ["lib/debian/copyright.py", "lib/debian/deb822.py", "lib/debian/_util.py"],
+    "C20": ["lib/debian/debtags.py"],
+}
+
+
 def anchor_hashes(mod):
     out = {}
-    for rel, names in getattr(mod, "ANCHORS", []):
+    listed = [rel for rel, names in getattr(mod, "ANCHORS", []) if not names]
+    extra = [(rel, []) for rel in PROP_FILES.get(getattr(mod, "ID", ""), []) if rel not in listed]
+    for rel, names in list(getattr(mod, "ANCHORS", [])) + extra:
         path = os.path.join(REPO, rel)
         try:
             tree = _strip_doc(ast.parse(open(path, encoding="utf-8").read()))
